@@ -347,9 +347,95 @@ def gots_ab(n):
             yield ''.join(t)
 
 
+class _Repr(object):
+    def __init__(self, text):
+        self.text = text
+
+    def __repr__(self):
+        return self.text
+
+
+class GotVsWantSpec(Spec):
+    """the entry point the runner calls, with what a statement printed *and* the value it returned: the want may match either,
+    and the marker is a wildcard for both comparisons exactly when ELLIPSIS is enabled in the state that is passed in"""
+    prop = 'C06'
+    batch = 1
+    title = 'check_got_vs_want(want, stdout, value) under +/-ELLIPSIS'
+
+    def __init__(self, name, nw, ng):
+        self.name = name
+        self.nw, self.ng = nw, ng
+        self.max_len = nw
+        self.rule = ('all wants <= %d tokens x printed text <= %d characters x value {none, repr <= %d characters} through '
+                     'check_got_vs_want with ELLIPSIS on and off, other leniencies off; expected: passes iff the want matches the '
+                     'printed text or (when there is a value) its repr under that setting; non-trivial = the setting decides' % (nw, ng, ng))
+
+    def histories(self, stats):
+        ws = wants(self.nw, marker_only=False)
+        step = 8
+        for i in range(0, len(ws), step):
+            yield ('chunk', i, step)
+
+    def hist_cost(self, hist):
+        return 0
+
+    def run_case(self, hist):
+        from xdoctest import checker, directive, constants
+        rs = {}
+        for ell in (False, True):
+            r = directive.RuntimeState()
+            for k in ('NORMALIZE_WHITESPACE', 'IGNORE_WHITESPACE', 'NORMALIZE_REPR'):
+                r[k] = False
+            r['DONT_ACCEPT_BLANKLINE'] = True
+            r['ELLIPSIS'] = ell
+            rs[ell] = r
+        if hist[0] == 'triple':
+            ws_, outs, vals = [hist[3]], [hist[1]], [hist[2]]
+        else:
+            ws_ = wants(self.nw, marker_only=False)[hist[1]:hist[1] + hist[2]]
+            outs = gots(self.ng)
+            vals = [None] + gots(self.ng)
+
+        def strip_tr(t):
+            return '\n'.join(l.rstrip(' \t') for l in t.split('\n')).rstrip()
+
+        def ref(g, w, ell):
+            gn, wn = strip_tr(g), strip_tr(w)
+            if g == w or gn == wn or not w:
+                return True
+            return ell and '...' in wn and brute_force(gn, matchref.pieces(wn))
+        n = nontriv = 0
+        fails = []
+        for w in ws_:
+            for out in outs:
+                for v in vals:
+                    res = {}
+                    for ell in (False, True):
+                        n += 1
+                        try:
+                            checker.check_got_vs_want(w, out, constants.NOT_EVALED if v is None else _Repr(v), rs[ell])
+                            res[ell] = True
+                        except checker.GotWantException:
+                            res[ell] = False
+                        if v is None:
+                            exp = ref(out, w, ell)
+                        elif not out:
+                            exp = ref(v, w, ell)
+                        else:
+                            exp = ref(out, w, ell) or ref(v, w, ell)
+                        if res[ell] != exp and len(fails) < 4:
+                            sig = 'gotvswant:%s:%s' % ('false-match' if res[ell] else 'false-mismatch',
+                                                       'marker-special-although-disabled' if (res[ell] and not ell) else ('ellipsis-on' if ell else 'ellipsis-off'))
+                            fails.append((('triple', out, v, w), [{'sig': sig, 'msg': 'check_got_vs_want(want=%r, stdout=%r, value with repr %r) with ELLIPSIS %s: %s, expected %s' % (
+                                w, out, v, 'on' if ell else 'off', 'passes' if res[ell] else 'fails', 'pass' if exp else 'fail')}], {'want': w, 'stdout': out, 'repr': v}))
+                    if res[False] != res[True]:
+                        nontriv += 1
+        return {'n': n, 'nontrivial': nontriv, 'fails': fails, 'outcomes': {'setting-decides': nontriv}, 'case': {'wants': ws_[:3]}}
+
+
 def specs(tier):
     if tier == 'thorough':
         return [EllipsisSpec('match<=6x6', 6, 6), CheckOutputSpec('check_output<=5x5', 5, 5),
-                ManyMarkersSpec('markers<=16', 16, 9), ToggleSpec(6)]
+                ManyMarkersSpec('markers<=16', 16, 9), ToggleSpec(6), GotVsWantSpec('got-vs-want<=4x3', 4, 3)]
     return [EllipsisSpec('match<=5x5', 5, 5), CheckOutputSpec('check_output<=4x4', 4, 4),
-            ManyMarkersSpec('markers<=14', 14, 7), ToggleSpec(4)]
+            ManyMarkersSpec('markers<=14', 14, 7), ToggleSpec(4), GotVsWantSpec('got-vs-want<=3x2', 3, 2)]
